@@ -1221,7 +1221,11 @@ pub fn check_exact<D: Distance>(
             (q, r, format!("by_vector count={count}"))
         };
         let spec = TopkSpec { metric: m.metric, query: &query, stored, filter: None, count, exact: true, accuracy };
-        oracle::check_topk(&spec, &res).map_err(|e| format!("{what} search_k=MAX over {n} items: {e}"))?;
+        oracle::check_topk(&spec, &res).map_err(|e| {
+            let qn: f64 = query.iter().map(|x| oracle::wide(*x) * oracle::wide(*x)).sum::<f64>().sqrt();
+            let norms: Vec<(u32, f64)> = res.iter().take(12).filter_map(|(id, _)| stored.get(id).map(|v| (*id, v.iter().map(|x| oracle::wide(*x) * oracle::wide(*x)).sum::<f64>().sqrt()))).collect();
+            format!("{what} search_k=MAX over {n} items: {e}; query norm {qn:e}; returned {:?}; norms of the returned items {norms:?}", res.iter().take(12).collect::<Vec<_>>())
+        })?;
         c.inc("exact_queries");
         c.add("exact_results_checked", res.len() as u64);
     }
